@@ -1,13 +1,13 @@
 #!/usr/bin/env python3
 """Regenerates the generated regions of DESIGN.md (between `<!-- BEGIN x -->` and `<!-- END x -->`):
-STATUS (per-property table), SEEDED (self-validation table), FINDINGS (all findings)."""
+STATUS (per-property table), SEEDED (self-validation table), FINDINGS (all findings), TRUSTED (as-built trusted base)."""
 import os, re, subprocess, sys
 HERE = os.path.dirname(os.path.abspath(__file__)); VERIF = os.path.dirname(HERE)
 def run(script):
     return subprocess.run([sys.executable, os.path.join(HERE, script)], capture_output=True, text=True).stdout
 p = os.path.join(VERIF, "DESIGN.md")
 s = open(p).read()
-for name, script in (("STATUS", "mk_status_table.py"), ("SEEDED", "mk_seeded_table.py"), ("FINDINGS", "mk_findings_table.py")):
+for name, script in (("STATUS", "mk_status_table.py"), ("SEEDED", "mk_seeded_table.py"), ("FINDINGS", "mk_findings_table.py"), ("TRUSTED", "mk_trusted_table.py")):
     b, e = "<!-- BEGIN %s -->" % name, "<!-- END %s -->" % name
     if b in s and e in s:
         i0 = s.index(b) + len(b); i1 = s.index(e)
